@@ -223,7 +223,12 @@ theorem wkt_roundtrip (d : Nat) (pts : List Pt) (hne : pts ≠ []) :
     have e2 : "LINE".toList = ['L', 'I', 'N', 'E'] := by decide
     rw [e, e2]
     simp
-  simp only [htake, ↓reduceIte, wktCoords_toWKT d pts hne, bind, Except.bind]
+  have hpoly : ((toWKT d pts).take 4 == "POLY".toList) = false := by
+    unfold toWKT
+    have e : "LINESTRING(".toList = ['L', 'I', 'N', 'E'] ++ "STRING(".toList := by decide
+    rw [e]
+    simp
+  simp only [hpoly, Bool.false_eq_true, htake, ↓reduceIte, wktCoords_toWKT d pts hne, bind, Except.bind]
   have h := mapM_ok (fun p : Pt => parseVertex (vertexStr d p)) (expVertex d) pts (fun p _ => parseVertex_vertexStr d p)
   rw [List.mapM_map]
   exact h
